@@ -778,9 +778,9 @@ func perm(r *Rng, n int) []int {
 func genUniverse(r *Rng) (string, []TxSpec) {
 	roots := perm(r, nRoots)
 	nextRoot := 0
-	usedCb := false
+	usedCb := !r.Chance(20) // one universe in five has a transaction that spends the coinbase root
 	root := func() string {
-		if !usedCb && r.Chance(25) {
+		if !usedCb && r.Chance(50) {
 			usedCb = true
 			return rootRef(nRoots) // the coinbase root
 		}
@@ -1778,7 +1778,17 @@ func runC23(c *Ctx) error {
 			} else {
 				c.Stats.Count("case:trivial")
 			}
-			if r.Model != "" { // the overlap stage is oracle-only: the model has no concurrent submissions
+			usesCb := false
+			for _, t := range r.Spec.Univ {
+				for _, in := range t.Ins {
+					usesCb = usesCb || in == rootRef(nRoots)
+				}
+			}
+			if usesCb && r.Model != "" {
+				// oracle only: the store keeps a spent coinbase output as a spent entry, so a later
+				// spender is refused where the model (which deletes spent roots) parks it as an orphan
+				c.Stats.Count("coinbase-root:oracle-only")
+			} else if r.Model != "" { // the overlap stage is oracle-only: the model has no concurrent submissions
 				id := c.Cases.Add(r.Model, r.Observed)
 				c.Stats.Count("model_evaluated")
 				if id < 1500 || len(r.Fails) > 0 {
